@@ -99,6 +99,29 @@ pub fn c08(g: &mut Gen) {
             }
         }
     }
+    // a flat position connected into a spatial position with several channels AND several columns (and back): the transition
+    // keeps every element, in row-major order
+    for (c, h, w) in [(2usize, 2usize, 3usize), (3, 1, 2), (2, 3, 2)] {
+        let n = c * h * w;
+        let conv = InnerSpec::Conv { filters: c, act: "tanh".into(), k: (1, 1), s: (1, 1), p: (0, 0), d: (1, 1), dropout: None, ks: (0..c).map(|_| weights(g, &Shape::Triple(c, 1, 1), 0.5)).collect() };
+        let conv2 = InnerSpec::Conv { filters: c, act: "tanh".into(), k: (1, 1), s: (1, 1), p: (0, 0), d: (1, 1), dropout: None, ks: (0..c).map(|_| weights(g, &Shape::Triple(c, 1, 1), 0.5)).collect() };
+        for (a, b) in [(2usize, 1usize), (0, 2), (1, 3)] {
+            // layers: 0 conv (spatial in), 1 conv (spatial in), 2 dense (flat in, n), 3 dense (flat in, n)
+            let builds = vec![Build::Layer(conv.clone()), Build::Layer(conv2.clone()), Build::Layer(dense_spec(g, &cfg, n, n, "tanh", true)), Build::Layer(dense_spec(g, &cfg, n, 2, "linear", true)),
+                Build::Connect(a.min(b), a.max(b))];
+            let net = NetSpec { input: Shape::Triple(c, h, w), builds, skipacc: "add".into(), loopacc: "mean".into(), opt: None, obj: "mse".into(), clamp: None };
+            let x = input_for(g, &net.input);
+            g.push(format!("net {} predict {}", net.token(), qt(&x)), Tol::Tight, "flat-spatial-connection/predict", true);
+            let t = target_for(g, &Sh::Flat(2), "mse");
+            g.push(format!("net {} backward {} {}", net.token(), qt(&x), qt(&t)), Tol::Tight, "flat-spatial-connection/gradient-shapes", true);
+        }
+        // a loop from a flattened multi-filter convolution back into a multi-channel spatial layer
+        let builds = vec![Build::Layer(conv.clone()), Build::Layer(conv2.clone()), Build::Layer(dense_spec(g, &cfg, n, 2, "linear", true)),
+            Build::Loopback { outof: 1, into: 0, iterations: 1, scale: "inv".into(), inskips: true }];
+        let net = NetSpec { input: Shape::Triple(c, h, w), builds, skipacc: "add".into(), loopacc: "add".into(), opt: None, obj: "mse".into(), clamp: None };
+        let x = input_for(g, &net.input);
+        g.push(format!("net {} predict {}", net.token(), qt(&x)), Tol::Tight, "flat-spatial-loop/predict", true);
+    }
     // an input that is zero in every element: produced shapes and gradient shapes do not depend on the VALUES
     for kind in 0..4usize {
         let (input, first, n_mid) = match kind {
@@ -536,6 +559,19 @@ pub fn c13(g: &mut Gen) {
             for e in [6usize, 10] {
                 let net = one_param_net(0.5, 0.01);
                 g.push(format!("net {} learn 1 {} 1 1 {} {} 1 {} {} {}", net.token(), sample, sample, t, e, s.len(), q1(s)), Tol::Tight, &format!("fine-rises/T{}", t), true);
+            }
+        }
+    }
+    // infinite (and negative-infinite) losses INSIDE a trajectory: they are recorded epochs like any other — the window is
+    // the last `tolerance` recorded epochs, and a rise into +inf is a rise
+    {
+        let inf = f32::INFINITY;
+        let scripts: Vec<Vec<f32>> = vec![vec![5.0, 1.0, 2.0, inf, 3.0, 4.0, 5.0, 6.0], vec![9.0, 1.0, inf, 2.0, 3.0, 0.5, 1.0, 2.0], vec![inf, inf, 3.0, 2.0, 1.0, 2.0, 3.0, 4.0],
+            vec![3.0, 2.0, inf, 1.0, 2.0, 3.0, 4.0, 5.0], vec![-inf, 1.0, 2.0, 3.0, inf, inf, 1.0, 2.0], vec![1.0, inf, 2.0, inf, 3.0, inf, 4.0, inf], vec![2.0, 1.0, -inf, 0.0, 1.0, 2.0, 3.0, 4.0]];
+        for s in &scripts {
+            for t in 1..=4 {
+                let net = one_param_net(0.5, 0.01);
+                g.push(format!("net {} learn 1 {} 1 1 {} {} 1 8 {} {}", net.token(), sample, sample, t, s.len(), q1(s)), Tol::Tight, &format!("infinite-losses/T{}", t), true);
             }
         }
     }
@@ -1300,6 +1336,26 @@ pub fn c16(g: &mut Gen) {
             }
         }
     }
+    // a connection into the FIRST layer (its only possible source is the network input itself): the first layer processes
+    // the accumulation of the input with itself
+    for acc in ACCS.iter() {
+        let (mut net, out) = skip_net(g, &cfg, 3, 3, false);
+        net.builds.push(Build::Connect(0, 0));
+        net.skipacc = acc.to_string();
+        g.push(format!("net {} connectmap", net.token()), Tol::Exact, "connect-seq/first-layer", true);
+        let x = input_for(g, &net.input);
+        g.push(format!("net {} predict {}", net.token(), qt(&x)), Tol::Tight, &format!("skip-forward/first-layer/{}", acc), true);
+        if *acc == "add" {
+            let t = target_for(g, &out, "mse");
+            g.push(format!("net {} backward {} {}", net.token(), qt(&x), qt(&t)), Tol::Tight, "skip-gradient/first-layer", true);
+        }
+        let (mut net2, _) = skip_net(g, &cfg, 3, 3, false);
+        net2.builds.push(Build::Connect(0, 0));
+        net2.builds.push(Build::Connect(0, 2));
+        net2.skipacc = acc.to_string();
+        let x = input_for(g, &net2.input);
+        g.push(format!("net {} predict {}", net2.token(), qt(&x)), Tol::Tight, &format!("skip-forward/first-layer-and-later/{}", acc), true);
+    }
     // chains configured back to front and in mixed order (whether a set of connections is accepted does not depend on the
     // order of the calls)
     for seq in [vec![(1usize, 2usize), (0, 1)], vec![(2, 3), (1, 2), (0, 1)], vec![(1, 3), (0, 1)], vec![(2, 3), (0, 2)], vec![(1, 2), (0, 1), (2, 3)]] {
@@ -1844,6 +1900,36 @@ pub fn c01(g: &mut Gen) {
             let x = input_for(g, &net.input);
             let t = target_for(g, &out, "mse");
             g.push(format!("net {} backward {} {}", net.token(), qt(&x), qt(&t)), Tol::Tight, &format!("feedback/L{}/{}", loops, if spatial { "spatial" } else { "flat" }), true);
+        }
+    }
+    // pooling windows WITHOUT a positive entry (a strictly negative tanh filter on a positive image; a pool as the first layer
+    // on negative data): the maximum of negative numbers is the least negative one, and the gradient goes to that cell
+    for first_pool in [false, true] {
+        let (h, w) = (4usize, 6usize);
+        let mut builds = Vec::new();
+        let count;
+        if first_pool {
+            builds.push(Build::Layer(InnerSpec::Maxpool { k: (2, 2), s: (2, 2) }));
+            builds.push(Build::Layer(InnerSpec::Conv { filters: 1, act: "tanh".into(), k: (2, 2), s: (1, 1), p: (0, 0), d: (1, 1), dropout: None, ks: vec![weights(g, &Shape::Triple(2, 2, 2), 0.5)] }));
+            count = 1 * 1 * 2;
+        } else {
+            let neg = Tensor::triple(vec![vec![vec![-0.3, -0.5], vec![-0.2, -0.4]], vec![vec![-0.6, -0.1], vec![-0.25, -0.35]]]);
+            builds.push(Build::Layer(InnerSpec::Conv { filters: 2, act: "tanh".into(), k: (2, 2), s: (1, 1), p: (0, 0), d: (1, 1), dropout: None, ks: vec![neg, weights(g, &Shape::Triple(2, 2, 2), 0.5)] }));
+            builds.push(Build::Layer(InnerSpec::Maxpool { k: (2, 2), s: (1, 2) }));
+            count = 2 * 2 * 2;
+        }
+        builds.push(Build::Layer(dense_spec(g, &cfg, count, 2, "tanh", true)));
+        let net = NetSpec { input: Shape::Triple(2, h, w), builds, skipacc: "add".into(), loopacc: "mean".into(), opt: None, obj: "mse".into(), clamp: None };
+        for _ in 0..2 {
+            let mut x = input_for(g, &net.input);
+            // (positive image behind a negative filter; negative image into a first-layer pool), distinct values: no ties
+            if let Data::Triple(v) = &mut x.data {
+                let mut k = 0.0f32;
+                for m in v.iter_mut() { for r in m.iter_mut() { for e in r.iter_mut() { k += 1.0; *e = (e.abs() + 0.05 + 0.013 * k) * if first_pool { -1.0 } else { 1.0 }; } } }
+            }
+            let t = target_for(g, &Sh::Flat(2), "mse");
+            g.push(format!("net {} backward {} {}", net.token(), qt(&x), qt(&t)), Tol::Tight, &format!("maxpool/no-positive-entry/{}", if first_pool { "first-layer" } else { "after-negative-filter" }), true);
+            g.push(format!("net {} predict {}", net.token(), qt(&x)), Tol::Tight, "maxpool/no-positive-entry/predict", true);
         }
     }
     // overlapping pooling windows (stride < kernel): a cell that is the arg-max of several windows collects all their gradients
